@@ -52,7 +52,30 @@ func (r *emRng) pick(vals ...int64) int64 {
 
 const emNL = 6 // label names L0..L5
 
-func emName(i int64) string { return "L" + strconv.FormatInt(i, 10) }
+// label names: most are short; two are wider than the 12-column operand field of the text listing (13 and 41
+// characters), so that the rendering helpers are exercised with names that do not fit their padding
+func emName(i int64) string {
+	switch i {
+	case 4:
+		return "L4_thirteen_c"
+	case 5:
+		return "L5_a_label_name_much_wider_than_the_field"
+	}
+	return "L" + strconv.FormatInt(i, 10)
+}
+
+// comment text of comment id v: every fifth comment is longer than the 120-byte line buffer of the listing writers
+func emComment(v int64) string {
+	s := "c" + strconv.FormatInt(v, 10)
+	if v%5 == 0 {
+		s += strings.Repeat("_", 150)
+	}
+	return s
+}
+
+func emCommentID(t string) (int64, error) {
+	return strconv.ParseInt(strings.TrimRight(t[1:], "_"), 10, 64)
+}
 
 type emStep struct {
 	K    string  `json:"k"` // call setbase label bytes comment arep asep clone append finalize
@@ -83,6 +106,20 @@ func emTarget(isNil bool, cap, fill int) []byte {
 		b[i] = byte(fill + 7*i)
 	}
 	return b[:cap:cap]
+}
+
+// emWindow is a target that is a window of a larger array (len < cap), the usual way to emit into a ROM/SRAM
+// region: the emitter's capacity is the LENGTH of the slice it is given.  Used by the falsifiers (the tie keeps
+// len = cap because Go lets the listing writers re-slice a window up to its capacity, which the model does not know).
+func emWindow(isNil bool, cap, fill int) []byte {
+	if isNil {
+		return nil
+	}
+	b := make([]byte, cap+6)
+	for i := range b {
+		b[i] = byte(fill + 7*i)
+	}
+	return b[:cap]
 }
 
 // ---------------------------------------------------------------- method census and classification
@@ -451,7 +488,7 @@ func emParseText(rec string) (emRL, bool) {
 		if !strings.HasPrefix(t, "c") {
 			return r, false
 		}
-		v, err := strconv.ParseInt(t[1:], 10, 64)
+		v, err := emCommentID(t)
 		r.K, r.L = "comment", v
 		return r, err == nil
 	case strings.HasSuffix(s, ":") && !strings.HasPrefix(s, " ") && !strings.HasPrefix(s, "!"):
@@ -529,7 +566,7 @@ func emParseHex(rec string) (emRL, bool) {
 			}
 		}
 		if strings.HasPrefix(t, "c") {
-			v, err := strconv.ParseInt(t[1:], 10, 64)
+			v, err := emCommentID(t)
 			r.K, r.L = "comment", v
 			return r, err == nil
 		}
@@ -692,7 +729,7 @@ func emDoFlat(a *asm.Emitter, st emStep) (bool, *emOpInfo, error) {
 		}
 		return emProtect(func() { a.EmitBytes(d) }), nil, nil
 	case "comment":
-		return emProtect(func() { a.Comment("c" + strconv.FormatInt(st.V, 10)) }), nil, nil
+		return emProtect(func() { a.Comment(emComment(st.V)) }), nil, nil
 	case "arep":
 		return emProtect(func() { a.AssumeREP(asm.Flags(st.V)) }), nil, nil
 	case "asep":
@@ -1296,7 +1333,7 @@ func emRunFlat(a *asm.Emitter, ops []emStep) {
 // everything report the same PC, labels and tracked flags after every call.
 func emC19(sc emScript) *emFail {
 	fail := func(cl, key, d string) *emFail { return &emFail{Clause: cl, Key: key, Detail: d, Script: sc} }
-	a := asm.NewEmitter(emTarget(sc.Nil, sc.Cap, sc.Fill), sc.Gen)
+	a := asm.NewEmitter(emWindow(sc.Nil, sc.Cap, sc.Fill), sc.Gen)
 	for i, st := range sc.Steps {
 		before := emObserve(a)
 		p, info, err := emDoFlat(a, st)
@@ -1340,7 +1377,7 @@ func emC19(sc emScript) *emFail {
 	}
 	sz := emSizes(sc.Gen, sc.Steps)
 	dry := asm.NewEmitter(nil, sc.Gen)
-	big := asm.NewEmitter(emTarget(false, emTotal(sz), sc.Fill), sc.Gen)
+	big := asm.NewEmitter(emWindow(false, emTotal(sz), sc.Fill), sc.Gen)
 	for i, st := range sc.Steps {
 		p1, _, _ := emDoFlat(dry, st)
 		p2, _, _ := emDoFlat(big, st)
@@ -1386,13 +1423,13 @@ func emC16(sc emScript, k int) *emFail {
 	if capa < total {
 		capa = total
 	}
-	direct := asm.NewEmitter(emTarget(false, capa, sc.Fill), sc.Gen)
+	direct := asm.NewEmitter(emWindow(false, capa, sc.Fill), sc.Gen)
 	emRunFlat(direct, ops)
-	orig := asm.NewEmitter(emTarget(false, capa, sc.Fill), sc.Gen)
+	orig := asm.NewEmitter(emWindow(false, capa, sc.Fill), sc.Gen)
 	emRunFlat(orig, ops[:k])
 	snap := emObserve(orig)
 	snapText := emRawListing(orig, false)
-	cl := orig.Clone(emTarget(false, total+4, sc.Fill+1))
+	cl := orig.Clone(emWindow(false, total+4, sc.Fill+1))
 	for i, st := range ops[k:] {
 		_, _, _ = emDoFlat(cl, st)
 		if o := emObserve(orig); !emObsEq(o, snap) || emRawListing(orig, false) != snapText {
@@ -1402,7 +1439,7 @@ func emC16(sc emScript, k int) *emFail {
 	}
 	// refused Append: an original with room for the head only
 	if cl.Len() > 0 {
-		small := asm.NewEmitter(emTarget(false, snap.Len+cl.Len()-1, sc.Fill), sc.Gen)
+		small := asm.NewEmitter(emWindow(false, snap.Len+cl.Len()-1, sc.Fill), sc.Gen)
 		emRunFlat(small, ops[:k])
 		if small.Len() == snap.Len {
 			b, bt := emObserve(small), emRawListing(small, false)
